@@ -18,17 +18,18 @@ CONFIGS = {
 }
 
 
-def write_cfg(path, name, export):
+def write_cfg(path, name, export, with_parse=False):
     ml, mr, md, pal, mt = CONFIGS[name]
     with open(path, 'w') as f:
         f.write('SPECIFICATION Spec\nCONSTANTS\n  MaxLen = %d\n  MaxRegs = %d\n  MaxDepth = %d\n  Alphabet = {%s}\n'
-                '  Palette = {%s}\n  MaxTotalLen = %d\nINVARIANT HeapShape\nINVARIANT NoOverlong\nPROPERTY ContractsHold\n'
-                'VIEW View\nCHECK_DEADLOCK FALSE\n' % (ml, mr, md, ', '.join(map(str, ALPHABET)), ', '.join(map(str, pal)), mt))
+                '  Palette = {%s}\n  MaxTotalLen = %d\n  WithParse = %s\nINVARIANT HeapShape\nINVARIANT NoOverlong\n'
+                'PROPERTY ContractsHold\nVIEW View\nCHECK_DEADLOCK FALSE\n'
+                % (ml, mr, md, ', '.join(map(str, ALPHABET)), ', '.join(map(str, pal)), mt, 'TRUE' if with_parse else 'FALSE'))
         if export:
             f.write('ACTION_CONSTRAINT Export\n')
 
 
-def run_model(name, export=False, timeout=3000):
+def run_model(name, export=False, timeout=3000, with_parse=False):
     """-> dict(model, ok, states, transitions, detail, what, histories?)"""
     d = tlcrun.scratch('verif-model-')
     try:
@@ -38,7 +39,7 @@ def run_model(name, export=False, timeout=3000):
             if fn.endswith('.tla'):
                 shutil.copy(os.path.join(tlcrun.SPEC, fn), os.path.join(snap, fn))
         cfg = os.path.join(snap, 'MC.cfg')
-        write_cfg(cfg, name, export)
+        write_cfg(cfg, name, export, with_parse)
         tf = os.path.join(d, 'texts.json')
         with open(tf, 'w') as f:
             json.dump([[ord(c) for c in t] for t in PALETTE], f)
@@ -46,7 +47,7 @@ def run_model(name, export=False, timeout=3000):
                                        timeout=timeout, heap='8g', cwd=snap)
         ok = 'Model checking completed. No error has been found.' in out
         states, trans = tlcrun.parse_stats(out)
-        res = {'model': 'AnsiSystem/' + name, 'ok': ok, 'states': states, 'transitions': trans, 'wall_s': round(wall, 1),
+        res = {'model': 'AnsiSystem/' + name + ('+parse' if with_parse else ''), 'ok': ok, 'states': states, 'transitions': trans, 'wall_s': round(wall, 1),
                'what': 'reference model, MaxLen=%d MaxRegs=%d MaxDepth=%d palette=%s: every contract clause on every transition, '
                        'HeapShape, NoOverlong' % (CONFIGS[name][0], CONFIGS[name][1], CONFIGS[name][2],
                                                   [PALETTE[i - 1] for i in CONFIGS[name][3]]),
@@ -133,6 +134,10 @@ def desc_to_op(dsc):
         return {'op': 'pad', 'r': dsc['r'], 'm': dsc['m'], 'width': dsc['width'], 'fill': chr(dsc['fill']), 'extend': bool(dsc['extend'])}
     if op == 'strip':
         return {'op': 'strip', 'r': dsc['r'], 'm': dsc['m'], 'chars': ''.join(chr(c) for c in dsc['chars'])}
+    if op == 'reparse':
+        return {'op': 'reparse', 'r': dsc['r'], 'cls': 'S'}
+    if op == 'simplify':
+        return {'op': 'simplify', 'r': dsc['r']}
     if op == 'render':
         fl = dsc['flags']
         return {'op': 'render', 'r': dsc['r'], 'how': 'to_str', 'optimize': bool(fl[0]), 'reset_start': bool(fl[1]), 'reset_end': bool(fl[2])}
@@ -150,10 +155,10 @@ def run_for(prop, tier):
         return ([run_model('deep')] if tier == 'thorough' else []) + [cp]
     if prop == 'C12':
         return [run_model('small' if tier == 'thorough' else 'quick'), run_cp('cp_deep' if tier == 'thorough' else 'cp_quick')]
-    if prop not in ('C01', 'C15'):
+    if prop not in ('C01', 'C02', 'C03', 'C15'):
         return []
     name = 'small' if tier == 'thorough' else 'quick'
-    return [run_model(name)]
+    return [run_model(name, with_parse=prop in ('C02', 'C03'))]
 
 
 def exported_histories(tier):
